@@ -36,7 +36,10 @@ struct Sess {
 }
 
 impl Sess {
-    fn new(dir: PathBuf) -> Self {
+    fn new(dir: PathBuf) -> Self { Self::new_with(dir, None) }
+    /// `pre`: a dictionary file that exists before the server starts (hand-edited or written by another
+    /// tool): (scope, raw contents, the words it holds)
+    fn new_with(dir: PathBuf, pre: Option<(&str, String, Vec<&str>)>) -> Self {
         std::fs::create_dir_all(&dir).unwrap();
         let mut docs = Vec::new();
         for i in 1..=2 {
@@ -44,7 +47,14 @@ impl Sess {
             std::fs::write(&p, DOC).unwrap();
             docs.push((format!("file://{}", p.to_string_lossy()), p));
         }
-        let mut s = Self { ls: Ls::new(&dir), dir, docs, evs: vec![json!({"ev": "Reset"})] };
+        let mut evs = vec![json!({"ev": "Reset"})];
+        if let Some((scope, raw, words)) = pre {
+            let path = if scope == "user" { dir.join("user/dictionary.txt") } else { file_dict_path(&dir, &docs[0].1) };
+            std::fs::create_dir_all(path.parent().unwrap()).unwrap();
+            std::fs::write(&path, raw.as_bytes()).unwrap();
+            evs.push(json!({"ev": "Preexisting", "scope": scope, "doc": 1, "words": words, "raw": raw}));
+        }
+        let mut s = Self { ls: Ls::new(&dir), dir, docs, evs };
         s.boot();
         s
     }
@@ -129,6 +139,24 @@ pub fn main(a: &Args) {
                 let _ = std::fs::remove_dir_all(&s.dir);
                 if finished || k >= max_k { break; }
                 k += 1;
+            }
+        }
+        // (1b) the dictionary file exists before the server ever ran: terminated or not, LF or CRLF
+        for scope in ["user", "file"] {
+            for words in [vec![W[2]], vec![W[2], W[3]]] {
+                for (sep, closed) in [("\n", true), ("\n", false), ("\r\n", true), ("\r\n", false)] {
+                    let mut raw = words.join(sep);
+                    if closed { raw.push_str(sep); }
+                    let mut s = Sess::new_with(base.join(format!("s{n}")), Some((scope, raw, words.clone()))); n += 1;
+                    s.observe();
+                    s.add(scope, W[0], 1);
+                    s.observe();
+                    s.add(if scope == "user" { "file" } else { "user" }, W[4], 1);
+                    s.restart();
+                    s.observe();
+                    for e in s.evs.drain(..) { out.emit(&e); }
+                    let _ = std::fs::remove_dir_all(&s.dir);
+                }
             }
         }
         // (2) histories: adds (user / file, case variants, non-ASCII), restarts, a crash
